@@ -7,7 +7,7 @@ ROOT = os.path.dirname(os.path.dirname(os.path.abspath(__file__)))
 cases = sys.argv[1]; seeds = sys.argv[2].split(','); faults = sys.argv[3] if len(sys.argv) > 3 else '2'
 props = sys.argv[4].split(',') if len(sys.argv) > 4 and sys.argv[4] else ['C%02d' % i for i in range(1, 15)]
 configs = sys.argv[5].split(',') if len(sys.argv) > 5 else ['full-dev', 'nofin-dev', 'default-release', 'min-release', 'noauto-dev', 'full-release']
-profiles = ['general', 'garbage', 'finalizers', 'resurrection', 'weak', 'counts', 'cleaners', 'nesting', 'unwrap', 'cyclic', 'counters']
+profiles = ['general', 'garbage', 'finalizers', 'resurrection', 'weak', 'counts', 'cleaners', 'nesting', 'unwrap', 'cyclic', 'counters', 'long']
 os.makedirs('/tmp/sweep', exist_ok=True)
 def run(t):
     prop, prof, cfg, seed = t
